@@ -323,3 +323,21 @@ example : (Pyx.OSetPtr.reversedRem (fun k => k == 7 || k == 9) 4 (Pyx.OSetPtr.ru
     Pyx.OSetPtr.absRunP [.add 9, .add 8, .add 7, .riterRm [7, 9], .add 5, .iterRm [8]] = [5] := by decide
 
 end PyxProps.C17
+
+/-! APPLIED example (audit round 2, item 12): `iter_remove_keeps_repr` and its backward twin on the state reached by three
+    adds — `Repr` comes from `ptr_reachable`, the predicate removes 9 and 7 -/
+namespace PyxProps.C17
+example : (Pyx.OSetPtr.iterRem (fun k => k == 9 || k == 7) (Pyx.OSetPtr.runP [.add 9, .add 8, .add 7]).fresh
+      (Pyx.OSetPtr.runP [.add 9, .add 8, .add 7]) ((Pyx.OSetPtr.runP [.add 9, .add 8, .add 7]).next 0)).1 =
+      Pyx.OSetPtr.absRunP [.add 9, .add 8, .add 7] ∧
+    Pyx.OSetPtr.Repr (Pyx.OSetPtr.iterRem (fun k => k == 9 || k == 7) (Pyx.OSetPtr.runP [.add 9, .add 8, .add 7]).fresh
+      (Pyx.OSetPtr.runP [.add 9, .add 8, .add 7]) ((Pyx.OSetPtr.runP [.add 9, .add 8, .add 7]).next 0)).2
+      ((Pyx.OSetPtr.absRunP [.add 9, .add 8, .add 7]).filter (fun k => !(k == 9 || k == 7))) ∧
+    (Pyx.OSetPtr.absRunP [.add 9, .add 8, .add 7]).filter (fun k => !(k == 9 || k == 7)) = [8] :=
+  ⟨(iter_remove_keeps_repr _ _ _ (ptr_reachable [.add 9, .add 8, .add 7]).1).1,
+   (iter_remove_keeps_repr _ _ _ (ptr_reachable [.add 9, .add 8, .add 7]).1).2, by decide⟩
+example : (Pyx.OSetPtr.reversedRem (fun k => k == 8) (Pyx.OSetPtr.runP [.add 9, .add 8, .add 7]).fresh
+      (Pyx.OSetPtr.runP [.add 9, .add 8, .add 7]) ((Pyx.OSetPtr.runP [.add 9, .add 8, .add 7]).prev 0)).1 =
+      (Pyx.OSetPtr.absRunP [.add 9, .add 8, .add 7]).reverse :=
+  (reverse_iter_remove_keeps_repr _ _ _ (ptr_reachable [.add 9, .add 8, .add 7]).1).1
+end PyxProps.C17
